@@ -503,3 +503,153 @@ B('j17_gj_branch_last_open', ['C17'], 'R17.b', (RS, "bytestr[:1] == b'[' and byt
 B('j17_gj_empty_raises', ['C17'], 'R17.b', (RS, _GJ_GUARD, "        if not bytestr:\n            raise ValueError('empty body')\n"))
 B('j17_gj_always_false', ['C17'], 'R17.b', (RS, _GJ, "        return False\n"))
 T('j17_gj_len_guard', ['C17'], (RS, _GJ_GUARD, "        if len(bytestr) < 2:\n            return False\n"))
+
+# ------------------------------------------------------------------ fourth pass
+# R17.g: kinds of value in the encoder -- an instance, a plain class, a class with a metaclass.  A conversion method
+# fetched from the object is called only where every kind of class is excluded by the type tests on the way.
+_CONV = '''        if not isinstance(obj, type):
+            if callable(getattr(obj, 'to_dict', None)):
+                return obj.to_dict()
+            if callable(getattr(obj, 'asdict', None)):
+                return obj.asdict()
+            if callable(getattr(obj, 'isoformat', None)):
+                return obj.isoformat()
+'''
+_CONV_NAMES = "('to_dict', 'asdict', 'isoformat')"
+_ENC_CLASS = 'class ClasticJSONEncoder(JSONEncoder):\n'
+
+
+def _conv_loop(guard, inner='callable(converter)'):
+    return (RS, _CONV, '''        if %s:
+            for name in %s:
+                converter = getattr(obj, name, None)
+                if %s:
+                    return converter()
+''' % (guard, _CONV_NAMES, inner))
+
+
+def _conv_helper(test):
+    """The conversions in a module-level helper that answers None for what it takes to be a class."""
+    return [(RS, _ENC_CLASS, '''_CONVERSIONS = %s
+
+
+def _conversion_of(obj):
+    if %s:
+        return None
+    for name in _CONVERSIONS:
+        converter = getattr(obj, name, None)
+        if callable(converter):
+            return converter
+    return None
+
+
+%s''' % (_CONV_NAMES, test, _ENC_CLASS)),
+            (RS, _CONV, '        converter = _conversion_of(obj)\n        if converter is not None:\n            return converter()\n')]
+
+
+T('j17_kind_loop_isinstance', ['C17'], _conv_loop('not isinstance(obj, type)'))
+T('j17_kind_helper_isinstance', ['C17'], *_conv_helper('isinstance(obj, type)'))
+T('j17_kind_isclass', ['C17'], (RS, 'import itertools\n', 'import itertools\nimport inspect\n'), _conv_loop('not inspect.isclass(obj)'))
+T('j17_kind_guard_at_call', ['C17'], _conv_loop('True', 'callable(converter) and not isinstance(obj, type)'))
+T('j17_kind_bound_method_test', ['C17'], (RS, 'import itertools\n', 'import itertools\nimport inspect\n'),
+  _conv_loop('True', 'inspect.ismethod(converter)'))
+T('j17_kind_issubclass_of_type', ['C17'], _conv_loop('not issubclass(type(obj), type)'))
+T('j17_kind_class_answered_first', ['C17'],
+  (RS, _CONV, "        if isinstance(obj, type):\n            if self.dev_mode:\n                return repr(obj)\n"
+              "            raise TypeError('cannot serialize to JSON: %r' % obj)\n"
+              "        for name in " + _CONV_NAMES + ":\n            if callable(getattr(obj, name, None)):\n                return getattr(obj, name)()\n"))
+B('j17_kind_type_is_type', ['C17'], 'R17.g', (RS, 'if not isinstance(obj, type):', 'if type(obj) is not type:'))
+B('j17_kind_dunder_class_eq_type', ['C17'], 'R17.g', (RS, 'if not isinstance(obj, type):', 'if not obj.__class__ == type:'))
+B('j17_kind_type_in_tuple', ['C17'], 'R17.g', (RS, 'if not isinstance(obj, type):', 'if type(obj) not in (type,):'))
+B('j17_kind_helper_type_is_type', ['C17'], 'R17.g', *_conv_helper('type(obj) is type'))
+B('j17_kind_loop_unguarded', ['C17'], 'R17.g', _conv_loop('True'))
+B('j17_kind_loop_guard_on_converter', ['C17'], 'R17.g', _conv_loop('True', 'callable(converter) and not isinstance(converter, type)'))
+B('j17_kind_guard_not_on_last', ['C17'], 'R17.g',
+  (RS, "            if callable(getattr(obj, 'isoformat', None)):\n                return obj.isoformat()\n",
+       "        if callable(getattr(obj, 'isoformat', None)):\n            return obj.isoformat()\n"))
+B('j17_kind_getattr_called_directly', ['C17'], 'R17.g',
+  (RS, _CONV, "        for name in " + _CONV_NAMES + ":\n            if hasattr(obj, name):\n                return getattr(obj, name)()\n"))
+B('j17_kind_only_instances_of_object_excluded', ['C17'], 'R17.g', (RS, 'if not isinstance(obj, type):', 'if not isinstance(obj, (int, float)):'))
+
+# R17.h: renderers are shared by all requests -- nothing on the render path stores what it learns from one request in
+# the renderer / its class / a module-level object / a mutable default and reads it back
+_SR_NEG = '''        resp_mime = self._format_mime_map.get(req_format)
+        if not resp_mime and request.accept_mimetypes:
+            resp_mime = request.accept_mimetypes.best_match(self.mimetypes)
+        if resp_mime not in self._mime_format_map:
+            resp_mime = self._default_mime
+'''
+_BR_CLASS = "class BasicRender(object):\n    _default_mime = 'application/json'\n"
+_BR_INIT_END = "        self.tabular_render = kwargs.pop('tabular_render', default_tabular)\n"
+B('j17_shared_accept_memo_items', ['C17'], 'R17.h',
+  (RS, _BR_INIT_END, _BR_INIT_END + "        self._negotiated = {}\n"),
+  (RS, _SR_NEG, '''        accept = request.headers.get('Accept', '')
+        resp_mime = self._format_mime_map.get(req_format)
+        if not resp_mime and accept in self._negotiated:
+            resp_mime = self._negotiated[accept]
+        if not resp_mime and request.accept_mimetypes:
+            resp_mime = request.accept_mimetypes.best_match(self.mimetypes)
+        if resp_mime not in self._mime_format_map:
+            resp_mime = self._default_mime
+        self._negotiated[accept] = resp_mime
+'''))
+B('j17_shared_class_memo_alias', ['C17'], 'R17.h',
+  (RS, _BR_CLASS, _BR_CLASS + "    _memo = {}\n"),
+  (RS, _SR_NEG, '''        memo = self._memo
+        key = str(request.accept_mimetypes)
+        resp_mime = self._format_mime_map.get(req_format) or memo.get(key)
+        if not resp_mime and request.accept_mimetypes:
+            resp_mime = request.accept_mimetypes.best_match(self.mimetypes)
+        if resp_mime not in self._mime_format_map:
+            resp_mime = self._default_mime
+        memo[key] = resp_mime
+'''))
+B('j17_shared_module_level_last', ['C17'], 'R17.h',
+  (RS, 'class BasicRender(object):\n', '_LAST_MIME = [None]\n\n\nclass BasicRender(object):\n'),
+  (RS, _SR_NEG, '''        resp_mime = self._format_mime_map.get(req_format)
+        if not resp_mime and request.accept_mimetypes:
+            resp_mime = request.accept_mimetypes.best_match(self.mimetypes)
+        if resp_mime not in self._mime_format_map:
+            resp_mime = _LAST_MIME[0] or self._default_mime
+        _LAST_MIME[0] = resp_mime
+'''))
+B('j17_shared_global_statement', ['C17'], 'R17.h',
+  (RS, 'class BasicRender(object):\n', '_last_format = None\n\n\nclass BasicRender(object):\n'),
+  (RS, "        req_format = request.args.get(self.qp_name)  # explicit GET query param\n",
+       "        global _last_format\n        req_format = request.args.get(self.qp_name) or _last_format\n        _last_format = req_format\n"))
+B('j17_shared_sticky_format_attribute', ['C17'], 'R17.h',
+  (RS, "        req_format = request.args.get(self.qp_name)  # explicit GET query param\n",
+       "        req_format = request.args.get(self.qp_name)\n        if req_format:\n            self._sticky_format = req_format\n"
+       "        else:\n            req_format = getattr(self, '_sticky_format', None)\n"))
+B('j17_shared_mutable_default', ['C17'], 'R17.h',
+  (RS, '    def _serialize_to_resp(self, context, request, _route):', '    def _serialize_to_resp(self, context, request, _route, _seen={}):'),
+  (RS, _SR_NEG, _SR_NEG + "        resp_mime = _seen.setdefault(request.path, resp_mime)\n"))
+B('j17_shared_streaming_flag_flips', ['C17'], 'R17.h',
+  (RS, "    def __call__(self, context):\n        if self.streaming:", "    def __call__(self, context):\n        if isinstance(context, list) and len(context) > 1000:\n"
+       "            self.streaming = True\n        if self.streaming:"))
+B('j17_shared_encoder_seen_set', ['C17'], 'R17.h',
+  (RS, "    def default(self, obj):\n", "    _seen = set()\n\n    def default(self, obj):\n        if id(obj) in self._seen:\n            return None\n        self._seen.add(id(obj))\n"))
+B('j17_shared_setattr_last_context', ['C17'], 'R17.h',
+  (RS, "        # not serialized yet, time to guess what the requester wants\n",
+       "        if context is None:\n            context = getattr(self, 'last_context', None)\n        setattr(self, 'last_context', context)\n"))
+T('j17_shared_local_memo', ['C17'],
+  (RS, _SR_NEG, "        chosen = {}\n" + _SR_NEG + "        chosen[req_format] = resp_mime\n        resp_mime = chosen[req_format]\n"))
+T('j17_shared_config_cache', ['C17'],
+  (RS, _BR_CLASS, _BR_CLASS + "    _served_mimes = None\n"),
+  (RS, "        resp_mime = self._format_mime_map.get(req_format)\n",
+       "        if self._served_mimes is None:\n            self._served_mimes = tuple(self._format_mime_map.values())\n"
+       "        resp_mime = self._format_mime_map.get(req_format)\n"),
+  (RS, "            resp_mime = request.accept_mimetypes.best_match(self.mimetypes)\n",
+       "            resp_mime = request.accept_mimetypes.best_match(self._served_mimes)\n"))
+T('j17_shared_write_only_counter', ['C17'],
+  (RS, _BR_CLASS, _BR_CLASS + "    rendered = 0\n"),
+  (RS, "        # not serialized yet, time to guess what the requester wants\n", "        self.rendered += 1\n"))
+T('j17_shared_fresh_response_header', ['C17'],
+  (RS, "        resp.mimetype_params['charset'] = self.encoding\n        return resp\n\n\nclass JSONPRender",
+       "        resp.mimetype_params['charset'] = self.encoding\n        resp.headers['X-Content-Type-Options'] = 'nosniff'\n        return resp\n\n\nclass JSONPRender"))
+# a request-independent value, written once -- but by whichever request asks for html first, and read before the fill
+B('j17_shared_lazy_fill_read_before', ['C17'], 'R17.h',
+  (RS, _BR_CLASS, _BR_CLASS + "    _preferred = None\n"),
+  (RS, "            resp_mime = self._default_mime\n",
+       "            resp_mime = self._preferred or self._default_mime\n        if req_format == 'html' and self._preferred is None:\n"
+       "            self._preferred = 'text/html'\n"))
